@@ -295,6 +295,8 @@ def _timeout_decisions(p):
     for e in p.trace:
         if e.k == "decision" and e.test[0] == "cmp":
             names = {x[1] for x in subterms(e.test) if x[0] == "param"}
+            if ("const", None) in (e.test[2], e.test[3]):
+                continue        # 'timeout is (not) None' selects the configuration, it is not an expiry test
             if "active_timeout" in names or "inactive_timeout" in names:
                 out.append(e)
     return out
